@@ -434,6 +434,34 @@ class SchemaBuilder(
 FieldType = TypeVar("FieldType", graphql.GraphQLInputField, graphql.GraphQLField)
 
 
+def internal_default(tp: graphql.GraphQLInputType, default: Any) -> Any:
+    """Defaults are serialized, but GraphQL default values are internal values, i.e.
+    enum members and not their (serialized) value."""
+    if default is graphql.Undefined or default is None:
+        return default
+    if isinstance(tp, graphql.GraphQLNonNull):
+        return internal_default(tp.of_type, default)
+    if isinstance(tp, graphql.GraphQLList) and isinstance(default, list):
+        return [internal_default(tp.of_type, elt) for elt in default]
+    if isinstance(tp, graphql.GraphQLInputObjectType) and isinstance(default, dict):
+        return {
+            key: internal_default(tp.fields[key].type, value)
+            if key in tp.fields
+            else value
+            for key, value in default.items()
+        }
+    if isinstance(tp, graphql.GraphQLEnumType):
+        for enum_value in tp.values.values():
+            member = enum_value.value
+            if (
+                isinstance(member, Enum)
+                and type(member.value) is type(default)
+                and member.value == default
+            ):
+                return member
+    return default
+
+
 class BaseField(Generic[FieldType]):
     name: str
     ordering: Optional[Ordering]
@@ -521,7 +549,7 @@ class InputSchemaBuilder(
         factory = self.visit_with_conv(field_type, field.deserialization)
         return lambda: graphql.GraphQLInputField(
             factory.type,
-            default_value=default,
+            default_value=internal_default(factory.type, default),
             description=get_description(get_field_schema(tp, field), field.type),
         )
 
@@ -735,7 +763,9 @@ class OutputSchemaBuilder(
                     arg_factory=arg_factory, default=default, description=description
                 ) -> graphql.GraphQLArgument:
                     return graphql.GraphQLArgument(
-                        arg_factory.type, default, description
+                        arg_factory.type,
+                        internal_default(arg_factory.type, default),
+                        description,
                     )
 
                 args[self.aliaser(param_field.alias)] = arg_thunk
